@@ -67,9 +67,9 @@ pub fn rule(prop: &str) -> &'static str {
         "C13" => "every CONNECT of G2 (all flag combinations x 3.1 / 3.1.1 / 5.0) and random CONNECTs presented to the other family's three front-ends, with continuation through decode_with_protocol; all 256 levels x 15 protocol names through both families and Protocol::new; distinct = distinct CONNECT encodings + (family, name, level) triples",
         "C14" => "valid packets x every byte position (all positions up to 2 KiB) x {nine io::ErrorKind values, clean EOF} for the async and poll decoders, x {error kinds, zero-length write, transient Interrupted} for encode_async and the streaming encoder; plus all conversions between the error types and io::Error; distinct = distinct host encodings + conversion cases",
         "C15" => "values of the variable byte integer domain (thorough: all 2^28 — exhaustive — for var_int_len, total_len, header_len, remaining_len, the writer and the reader via the Subscription Identifier property and decode_raw_header; the poll header state machine on all values < 2^22, every 257th value above and the last 4096; quick: all < 2^16, +-4096 around every width boundary and the top, 2M random); all continuation-bit patterns of 1-5 bytes; first invalid values; distinct = distinct values / patterns",
-        "C16" => "all strings of up to 7 (quick) / 8 (thorough) symbols over {'/','+','#','$','a',NUL,'é','𝄞'} behind each of 25 $share-prefix shapes and look-alikes, long strings around 65535 bytes, through TopicFilter::is_invalid / try_from and (sampled) inside v3/v5 SUBSCRIBE and UNSUBSCRIBE; distinct = strings enumerated (each visited once)",
+        "C16" => "all strings of up to 7 (quick) / 8 (thorough) symbols over {'/','+','#','$','a',NUL,'é','𝄞'} behind each of 29 $share / $SYS prefix shapes and look-alikes, long strings around 65535 bytes, through TopicFilter::is_invalid / try_from and (sampled) inside v3/v5 SUBSCRIBE and UNSUBSCRIBE; distinct = strings enumerated (each visited once)",
         "C17" => "the valid filters of C16's enumeration plus long random valid filters: accessors vs the unique split, text round trip, ==/cmp/hash (two hashers) on all pairs within buckets of 64, decoded-vs-constructed filters; distinct = valid filters examined",
-        "C18" => "all strings of up to 7 / 8 symbols over {'/','+','#','$','S','a',NUL,'é'} behind {'', '$share/', '$SYS/', '$sys/', '$SYS'}, long strings around the limit, through TopicName::is_invalid / try_from / accessors and (sampled) the eight packet routes; distinct = strings enumerated",
+        "C18" => "all strings of up to 7 / 8 symbols over {'/','+','#','$','S','a',NUL,'é'} behind 11 prefix shapes ('', '$share/', '$SYS/', '$sys/', '$SYS', and the markers in non-initial position), long strings around the limit, through TopicName::is_invalid / try_from / accessors and (sampled) the eight packet routes; distinct = strings enumerated",
         "C19" => "pairs (identifier, amount): thorough all 65535 x 65536; quick all amounts for identifiers <= 300 and >= 65200, and amounts {0..300, 32760..32776, 65200..65535, p, p+-1, 65535-p} for the rest; checked against modular arithmetic on the cycle; distinct = pairs (each visited once)",
         "C20" => "valid host packets (G2 sample, G1, special hosts) x every applicable catalogue operator at every applicable position (36 rows); expected error declared by the operator and cross-checked against the reference decoder; poll result must be the documented variant with its payload, blocking/async as the row prescribes; distinct = distinct malformed frames",
         _ => "",
